@@ -7,6 +7,7 @@ from ..expr import (expr_of_operand, expr_of_local, call_arg_exprs, evaluate, de
 from ..engines import OK, ERR, SOME, NONE
 from .. import lenck as L
 from . import common as cm
+from fractions import Fraction
 from ..inline import inline
 
 EXPLANATION = (
@@ -565,6 +566,23 @@ class Discharger:
                 rep_lin = lctx.len_of_operand(c.args[names[v[1]] - 1])
             elif isinstance(v, tuple) and v[0] == "local" and v[1] in names:
                 rep_lin = lctx.lin(expr_of_operand(f, c.args[names[v[1]] - 1]))
+            elif isinstance(v, tuple) and v[0] == "some" and v[1] in names:
+                # is field v[2] of the argument Some?  yes if the argument is the Ok payload of a producer whose
+                # Ok-postcondition says so; if it is the caller's own parameter the obligation moves up
+                e_ = expr_of_operand(f, c.args[names[v[1]] - 1])
+                base_ = e_
+                while base_ is not None and base_.k == "field":
+                    base_ = base_.a
+                inner_ = None
+                if base_ is not None and base_.k == "call":
+                    inner_ = call_arg_exprs(base_.a)[0] if base_.a.path == "std::ops::Try::branch" else base_
+                if inner_ is not None and inner_.k == "call" and self.prog.callee_fns(inner_.a) and \
+                        all(v[2] in ok_postcondition_some(self.prog, g_, self.post_memo) for g_ in self.prog.callee_fns(inner_.a)):
+                    rep_lin = L.lin_const(1)
+                elif e_.k == "local" and 1 <= e_.a <= f.argc:
+                    rep_lin = L.lin_var(("some", lctx.name(e_.a), v[2]))
+                else:
+                    rep_lin = L.lin_const(0)
             elif isinstance(v, tuple) and v[0] == "constparam":
                 b = binding.get(v[1])
                 if b is not None and not b[1] and b[0].isdigit():
@@ -609,6 +627,11 @@ class Discharger:
                         tg = prog.callee_fns(inner.a)
                         if tg and all(fld in ok_postcondition_some(prog, g, self.post_memo) for g in tg):
                             return ("ok", "Ok-postcondition of %s: `%s` is Some on every Ok return" % (tg[0].name, fld))
+                # a record handed in by the caller (a helper taking the parsed value): Some-ness of its field is
+                # a precondition, discharged at the call sites from the producer's Ok-postcondition
+                if base is not None and base.k == "local" and 1 <= base.a <= f.argc and f.key not in self.entries and x.a is base:
+                    var = ("some", lctx.name(base.a), fld)
+                    return ("lift", [(({var: Fraction(1), 1: Fraction(-1)}, ">="), "field `%s` of `%s` is Some" % (fld, lctx.name(base.a)))])
                 rec_fld = protected_record_field(prog)
                 if fld == rec_fld and "protected::Protected" in f.path or (fld == rec_fld and "Protected" in f.locals[1]["t"] if f.argc else False):
                     self.stats["invariant"] += 1
@@ -698,7 +721,7 @@ class Discharger:
             vs = L.lin_vars(goal[0])
             params = {f.local_name(p) for p in range(1, f.argc + 1)}
             liftable = f.key not in self.entries and all(
-                (isinstance(v, tuple) and ((v[0] in ("len", "local") and v[1] in params) or v[0] == "constparam")) for v in vs)
+                (isinstance(v, tuple) and ((v[0] in ("len", "local", "some") and v[1] in params) or v[0] == "constparam")) for v in vs)
             split = None if liftable else self.split_multidef(f, goal, facts, econs, params)
             if liftable:
                 lifted.append((goal, "%s (%s)" % (desc, s.text)))
